@@ -173,6 +173,19 @@ def run(chk):
         scale = float(np.abs(B[Sd]).max() + 1e-30) ** (m if pd_ == m else 2 * m) * 1e-9 * max(1.0, float(m) ** m)
         meta.append(("det", dv, scale, {**case, "what": "determinant", "sensors": Sd}))
         chk.count("det:" + ("square" if pd_ == m else "tall"))
+        # the same for a basis held in an integer-typed array (an Identity basis of pixel counts): the determinant is about the numbers
+        if rng.random() < 0.4 and m <= 3:
+            dt, hi_ = [(np.int8, 100), (np.int16, 3000), (np.int32, 100000), (np.int64, 1000)][int(rng.integers(0, 4))]
+            Bi = rng.integers(-hi_, hi_ + 1, size=(n, m)).astype(dt)
+            pi_ = m if rng.random() < 0.4 else int(rng.integers(m, n + 1))
+            Si = [int(i) for i in rng.permutation(n)[:pi_]]
+            try:
+                dvi = float(determinant(np.array(Si), n, Bi))
+                exprs.append(f"optimality {C.cqmat(fr_rows(Bi[Si].astype(float)))}")
+                meta.append(("det", dvi, 0.0, {**case, "what": f"determinant of a basis held as {np.dtype(dt).name}", "sensors": Si, "basis": Bi.tolist()}))
+                chk.count("det:integer-typed")
+            except Exception as e:
+                chk.violation("impl", "determinant-raises", f"determinant on a {np.dtype(dt).name} basis raised {type(e).__name__}: {e}", {"dtype": np.dtype(dt).name})
     files = []
     for i in range(0, len(exprs), 40):
         body = ("From Coq Require Import List Arith QArith Qcanon. Import ListNotations.\nFrom PS Require Import Recon.Scores.\n"
